@@ -93,6 +93,16 @@ def _once(case, acc, tree, labels):
     got = list(PreOrderIter(start, filter_, stop, maxlevel))
     if not refs.same_seq(got, exp_pre):
         raise Violation("preorder-positional", "%s expected %s got %s" % (ctx, lab(exp_pre), lab(got)))
+    if not refs.same_seq(list(PostOrderIter(start, filter_, stop, maxlevel)), exp_post):
+        raise Violation("postorder-positional", ctx)
+    if not refs.same_seq(list(LevelOrderIter(start, filter_, stop, maxlevel)), exp_level):
+        raise Violation("levelorder-positional", ctx)
+    got = list(LevelOrderGroupIter(start, filter_, stop, maxlevel))
+    if len(got) != len(exp_groups) or not all(refs.same_seq(g, e) for g, e in zip(got, exp_groups)):
+        raise Violation("levelordergroup-positional", ctx)
+    got = list(ZigZagGroupIter(start, filter_, stop, maxlevel))
+    if len(got) != len(exp_zz) or not all(refs.same_seq(g, e) for g, e in zip(got, exp_zz)):
+        raise Violation("zigzag-positional", ctx)
     if forest.snapshot(tree, labels) != before:
         raise Violation("no-mutation", "tree changed by iteration")
 
@@ -148,7 +158,7 @@ def _enum_cases(max_nodes, index, count, min_nodes=1, root_only=False):
                             "hide": hide,
                             "maxlevel": maxlevel,
                             "none_when_empty": bool(variant % 2),
-                            "cls": "Node" if variant % 3 else "SlotLM",
+                            "cls": ("Node", "SlotLM", "EqNode", "FalsyNode", "Node", "LenNode", "Node")[variant % 7],
                         }
 
 
